@@ -17,6 +17,22 @@ CHECKS = {
             'Trusted: Lean kernel + propext/Classical.choice/Quot.sound; the hand-written model is tied to the code '
             'only by the sampled correspondence; Python == / hash classes are assigned by the harness.',
             '5 (C17)'),
+    'C18': ('Lean 4 proof: classification folds are partitions (generic fold lemma), verdict <=> single good key, '
+            'OK+KO=total for every row of the recursive by-labels loop (index invariant) + differential correspondence',
+            'tasks_partition / tests_partition / *_success_iff / labels_row_sum / labels_n proved for all inputs of the '
+            'model; model tied to stats.py on every run on generated task sections; recount oracle on the implementation.',
+            'Trusted: Lean kernel + standard axioms; correspondence is sampled; NOT_A_TEST results and non-string label '
+            'values are outside the quantifier; per-row id-set characterisation (labels_total) is checked by the oracle, '
+            'not yet a theorem.',
+            '5 (C18)'),
+    'C09': ('Lean 4 proof: Python slice normalisation transcribed; cells (1-d and N-d by induction over axes), edges '
+            'a..b / centres a..b-1, well-formedness, squeeze + differential correspondence, exhaustive small scopes in thorough',
+            'slice_cells, sliceND_cells, sliceND_length, slice_bins_edges, slice_bins_centres, slice_wf, '
+            'empty_selection_empty, squeeze_drops_unit_axes hold for every shape/slice of the model; the model is tied to '
+            'Dataset.__getitem__/squeeze on random cases each run and on all small shapes x slices in the thorough tier.',
+            'Trusted: Lean kernel + standard axioms; numpy basic slicing is exercised, not modelled beyond row-major '
+            'semantics; c09_pinned_refuted keeps the pinned (defective) _get_bins_slice refuted.',
+            '5 (C09)'),
 }
 
 NOT_YET = 'check not built yet in this round (planned in DESIGN.md section 5); no claim is made'
